@@ -62,8 +62,17 @@ func (p *Project) WorkflowsDir() string {
 // Knows returns true when the project knows the given file. When a file is included in the
 // project's directory, the project knows the file.
 func (p *Project) Knows(path string) bool {
-	// TODO: strings.HasPrefix is not perfect to check file path
-	return strings.HasPrefix(absPath(path), p.root)
+	path = absPath(path)
+	if path == p.root {
+		return true
+	}
+	// Compare with the root followed by a separator. Otherwise a sibling directory whose
+	// name starts with the root's name (/foo/bar-2 for /foo/bar) is treated as a part of this project.
+	root := p.root
+	if !strings.HasSuffix(root, string(filepath.Separator)) {
+		root += string(filepath.Separator)
+	}
+	return strings.HasPrefix(path, root)
 }
 
 // Config returns config object of the GitHub project repository. The config file was read from
